@@ -173,9 +173,27 @@ extern "C" void h_partial_decls(void) {
    const ipr::Forall& fa = lx.get_forall(lx.get_product(w2), lx.class_type());
    const ipr::Name& nm = *w->N[0];
    // the name may already be shared by a declaration of another kind (an ordinary function or a variable of another type)
-   unsigned shared = vp_pick(3);
+   // ... or by a declaration of ANOTHER kind with the SAME name and type (e.g. `struct S; typedef struct S S;`): such a request must be
+   // refused with a logic_error or produce declarations whose every accessor behaves
+   unsigned shared = vp_pick(5);
    if (shared == 1) w->reg->declare_var(nm, lx.double_type()); else if (shared == 2) w->reg->declare_fun(nm, lx.get_function(lx.get_product(w1), lx.double_type()));
    Sweep v;
+   if (shared >= 3) {
+      const ipr::Type& same = kind <= 2 || kind == 4 ? static_cast<const ipr::Type&>(lx.int_type()) : kind == 3 ? lx.class_type() : kind == 5 ? static_cast<const ipr::Type&>(ft) : static_cast<const ipr::Type&>(fa);
+      const ipr::Decl* other = nullptr;
+      if (shared == 3) other = kind == 0 ? static_cast<const ipr::Decl*>(w->reg->declare_field(nm, same)) : static_cast<const ipr::Decl*>(w->reg->declare_var(nm, same));
+      else other = kind == 3 ? static_cast<const ipr::Decl*>(w->reg->declare_var(nm, same)) : static_cast<const ipr::Decl*>(w->reg->declare_type(nm, same));
+      const ipr::Decl* second = nullptr;
+      int out = vp_outcome([&] { switch (kind) {
+         case 0: second = w->reg->declare_var(nm, same); break; case 1: second = w->reg->declare_field(nm, same); break; case 2: second = w->reg->declare_bitfield(nm, same); break;
+         case 3: second = w->reg->declare_type(nm, same); break; case 4: second = w->reg->declare_alias(nm, same); break; case 5: second = w->reg->declare_fun(nm, ft); break;
+         case 6: second = w->reg->declare_primary_template(nm, fa); break; default: second = w->reg->declare_secondary_template(nm, fa); break; } });
+      vp_assert(out != 2, 11);
+      if (out == 0 && second) { v.template node<ipr::Decl>(*second); v.template node<ipr::Decl>(*other);
+         switch (kind) { case 0: v.template node<ipr::Var>(*static_cast<const ipr::Var*>(second)); break; case 3: v.template node<ipr::Typedecl>(*static_cast<const ipr::Typedecl*>(second)); break;
+                         case 5: v.template node<ipr::Fundecl>(*static_cast<const ipr::Fundecl*>(second)); break; case 6: case 7: v.template node<ipr::Template>(*static_cast<const ipr::Template*>(second)); break; default: break; } }
+      vp_done(); return;
+   }
    auto fill = [&](auto* first, auto* second, auto set_own) {
       using D = std::remove_pointer_t<decltype(first)>;
       unsigned def = vp_pick(redeclare ? 3 : 2);                     // the definition: unknown, the first declaration, the redeclaration
@@ -227,6 +245,20 @@ extern "C" void h_substitution_lookups(void) {
    }
    const ipr::Substitution& el = *lx.make_elementary_substitution(*P[1], *w->E[0]);
    for (int k = 0; k < 5; ++k) { const ipr::Expr* r = nullptr; int out = vp_outcome([&] { r = &el[*P[k]]; deref(*r); }); vp_assert(out != 2 && (out != 0 || r == (k == 1 ? w->E[0] : static_cast<const ipr::Expr*>(P[k]))), 10); }
+   vp_done();
+}
+// a warehouse constructed with a size holds that many slots that were never set: reading them (through the warehouse, or through the
+// product / sum built from it) is refused with a logic_error like any other link that was never set
+extern "C" void h_presized_warehouse(void) {
+   zoo::World* w = new zoo::World; auto& lx = w->lx;
+   unsigned n = vp_pick(3), extra = vp_pick(2);
+   impl::Warehouse<ipr::Type> wh(n); for (unsigned i = 0; i < extra; ++i) wh.push_back(*w->T[i]);
+   const ipr::Product* p = nullptr; int made = vp_outcome([&] { p = &lx.get_product(wh); });
+   vp_assert(made != 2, 12);
+   if (made == 0) for (unsigned i = 0; i < n + extra; ++i) {
+      const ipr::Type* t = nullptr; int out = vp_outcome([&] { t = &(*p)[i]; deref(*t); });
+      vp_assert(out != 2 && (out != 0 || (i >= n && t == w->T[i - n])), 13);
+   }
    vp_done();
 }
 // checked pointers and strings
